@@ -42,6 +42,10 @@ def run(repo, tier) -> Result:
     check_own("C13", res, repo)
     check_manager_purge("C13", res, repo)
     check_hexital_purge("C13", res, repo)
+    # indicators on one timeframe share a manager: its configuration must come from the Hexital, not from whichever indicator creates it
+    from .c08 import check_binding
+
+    check_binding(res, repo, prop="C13")
     depth, why, fn = purge_depth(repo)
     need = max_depth(repo)
     # for non-interference only "purged(A) is a subset of A's own closure" matters; completeness of the closure is C14
